@@ -602,8 +602,8 @@ def obligations(tier: str) -> List[Ob]:
     k4_cases = []
     if tier == 'quick':
         for k in RANGE_KINDS:
-            for n in (0, 2, 3):
-                k4_cases.append(((k,), n, False, False))
+            for n in (0, 1, 2, 3, 4, 5):
+                k4_cases.append(((k,), n, n == 3, False))
         # every ordered pair of range forms (round 4 of the seeded changes: C13-r4m2 needs `X LOWER:` with X ending at LOWER-1;
         # until then only 4 of the 16 pairs were in the quick tier)
         for ks in itertools.product(RANGE_KINDS, repeat=2):
